@@ -135,7 +135,7 @@ Proof.
   intros ms i m b Hn Hc Hf.
   rewrite (C20_download_first_reachable ms dl_fresh i m b eq_refl Hn Hc Hf). cbn [fst snd dl_file].
   split; [reflexivity|].
-  apply (C20_download_first_reachable ms _ i m b eq_refl Hn Hc Hf).
+  apply (C20_download_first_reachable ms {| dl_path := true; dl_file := Some b |} i m b eq_refl Hn Hc Hf).
 Qed.
 Print Assumptions C20_download_fresh_exact.
 
